@@ -527,6 +527,7 @@ package dbft
 // the block-time bounds in force at a height are the ones the callbacks report when the height is entered (C16: an empty
 // proposal waits for the CURRENT maximum, proposals keep the CURRENT minimum distance)
 //@   ensures [C13,C05] @ownIndexFresh implies(view == 0, self.MyIndex == first(self.Config.GetKeyPair(self.Validators)))
+//@   ensures [C05,C13] @ownKeysFresh implies(view == 0, self.Priv == second(self.Config.GetKeyPair(self.Validators)) && self.Pub == third(self.Config.GetKeyPair(self.Validators)))
 //@   ensures [C16] @freshTiming implies(view == 0, self.timePerBlock == gTimePerBlock && implies(self.Config.MaxTimePerBlock != nil, self.maxTimePerBlock == gMaxTimePerBlock))
 //@   ensures [C16,C05] @unsubscribed !self.txSubscriptionOn
 //@   ensures [C15,C05] @base self.lastBlockTimestamp == ts
